@@ -116,21 +116,29 @@ theorem twos16_small (d : Int) (h0 : 0 ≤ d) (h1 : d ≤ 15) : Model.Thrift.two
   have : d % (2 ^ 16 : Int) = d := Int.emod_eq_of_lt h0 (by omega)
   rw [this]
 
-/-- delta short form `dddd tttt` for 1 ≤ delta ≤ 15 (the model reaches it for every id ≤ 15) -/
+/-- delta short form `dddd tttt` for a Delta with 1 ≤ delta ≤ 15 -/
 theorem wField_compact_short (T : Model.Thrift.TType) (d : Int) (hs : (T == .stop) = false) (hc : T.code < 16)
-    (h0 : 0 ≤ d) (h1 : d ≤ 15) :
-    Model.Thrift.wField .compact T d = [UInt8.ofNat (d.toNat * 16 + T.code)] := by
+    (h0 : 0 < d) (h1 : d ≤ 15) :
+    Model.Thrift.wField .compact T d true = [UInt8.ofNat (d.toNat * 16 + T.code)] := by
   unfold Model.Thrift.wField
-  simp only [hs, Bool.false_eq_true, if_false, h1, if_true, twos16_small d h0 h1]
+  simp only [hs, Bool.false_eq_true, if_false, h0, h1, decide_true, Bool.and_self, if_true,
+    twos16_small d (by omega) h1]
   congr 2
   have : d.toNat ≤ 15 := by omega
   omega
 
 /-- long form: type byte, then the zig-zag varint of the id -/
-theorem wField_compact_long (T : Model.Thrift.TType) (id : Int) (hs : (T == .stop) = false) (h1 : 15 < id) :
-    Model.Thrift.wField .compact T id = [UInt8.ofNat T.code] ++ Spec.Thrift.zz id := by
+theorem wField_compact_long (T : Model.Thrift.TType) (id : Int) (dl : Bool) (hs : (T == .stop) = false)
+    (h1 : dl = false ∨ id ≤ 0 ∨ 15 < id) :
+    Model.Thrift.wField .compact T id dl = [UInt8.ofNat T.code] ++ Spec.Thrift.zz id := by
   unfold Model.Thrift.wField
-  have : ¬ id ≤ 15 := by omega
+  have : (dl && decide (0 < id) && decide (id ≤ 15)) = false := by
+    rcases h1 with h | h | h
+    · simp [h]
+    · have : ¬ 0 < id := by omega
+      simp [this]
+    · have : ¬ id ≤ 15 := by omega
+      simp [this]
   simp only [hs, Bool.false_eq_true, if_false, this, varint_eq_zz]
 
 /-- the type the model announces in a compact field header (bool value folded into the type) -/
